@@ -401,6 +401,7 @@ class _Module:
         seen: set[str] = set()
 
         param_alias: dict[str, dict[str, str]] = {}     # callee -> parameter name -> view handed in
+        elem_taint: dict[str, dict[str, set[str]]] = {}  # callee -> parameter name -> views whose objects are handed in
 
         def visit_func(name: str, ctx: tuple[str, ...]) -> None:
             if name in seen:
@@ -440,8 +441,22 @@ class _Module:
                         raise TranslateError(f'bsp.py BSP.{name}:{n.lineno}: view alias {n.id} aliased again')
                     if k != 'param':
                         out.setdefault('uses', []).append((alias[n.id], k, n.lineno))
-            for v, line in _element_mutations(fn, alias, set(self.views)):
+            calls_out: dict[str, dict[int, set[str]]] = {}
+            for v, line in _element_mutations(fn, alias, set(self.views), elem_taint.get(name), calls_out):
                 out.setdefault('elem_mut', []).append((v, line))
+            for callee_name, by_pos in calls_out.items():
+                if callee_name not in self.methods:
+                    continue
+                cfn = self.methods[callee_name]
+                static = any(isinstance(d, ast.Name) and d.id == 'staticmethod' for d in cfn.decorator_list)
+                cparams = [a.arg for a in cfn.args.args[0 if static else 1:]]
+                for k, vs in by_pos.items():
+                    if k >= len(cparams):
+                        raise TranslateError(f'bsp.py BSP.{name}: object of a view handed to self.{callee_name} in an untracked way')
+                    have = elem_taint.setdefault(callee_name, {}).setdefault(cparams[k], set())
+                    if callee_name in seen and not vs <= have:
+                        raise TranslateError(f'bsp.py BSP.{name}: self.{callee_name} receives objects of {sorted(vs - have)} after it was analysed')
+                    have |= vs
             self._walk_body(fn.body, ctx, out, visit_func, f'bsp.py BSP.{name}')
 
         if fname not in self.methods:
@@ -604,7 +619,9 @@ def _classify_use(n: ast.Attribute, par: dict[int, ast.AST]) -> str:
     return 'read'                   # for-iteration, comparison, boolean test, comprehension source, f-string ...
 
 
-def _element_mutations(fn: ast.FunctionDef, alias: dict[str, str], views: set[str]) -> list[tuple[str, int]]:
+def _element_mutations(fn: ast.FunctionDef, alias: dict[str, str], views: set[str],
+                       param_taint: dict[str, set[str]] | None = None,
+                       calls_out: dict[str, dict[int, set[str]]] | None = None) -> list[tuple[str, int]]:
     """Objects REACHED THROUGH a view that the function changes in place (the view container itself is classified by
     _classify_use): `vmf = self.ents; for ent in vmf.entities: ent.pop('model')`, `of = orig_faces[i]; of.texinfo = t`.
     A local name is tainted by view V when it is bound (assignment, for target, comprehension target, with-as, walrus)
@@ -613,7 +630,7 @@ def _element_mutations(fn: ast.FunctionDef, alias: dict[str, str], views: set[st
     receiver chain (attributes, subscripts, method calls) is rooted at a tainted name — or at the view itself and at
     least two links long.  May-analysis: over-approximate (a number computed from a view taints its name, but numbers
     have no attribute stores); the result is a census of (view) pairs, compared with the list that was reviewed."""
-    taint: dict[str, set[str]] = {}
+    taint: dict[str, set[str]] = {k: set(v) for k, v in (param_taint or {}).items()}
 
     def mentions(e: ast.AST) -> set[str]:
         out: set[str] = set()
@@ -678,6 +695,16 @@ def _element_mutations(fn: ast.FunctionDef, alias: dict[str, str], views: set[st
             return set(taint.get(e.id, set())), depth + 1      # an element: one link below the view already
         return set(), depth
 
+    if calls_out is not None:       # objects handed to other BSP methods: their parameters are tainted there
+        for n in ast.walk(fn):
+            if isinstance(n, ast.Call) and _is_self_attr(n.func):
+                for k, a in enumerate(n.args):
+                    vs = mentions(a) if not (_is_self_attr(a) and a.attr in views) and not (isinstance(a, ast.Name) and a.id in alias) else set()
+                    if vs:
+                        calls_out.setdefault(n.func.attr, {}).setdefault(k, set()).update(vs)
+                for kw in n.keywords:
+                    if mentions(kw.value):
+                        raise TranslateError(f'bsp.py BSP.{fn.name}:{n.lineno}: object of a view handed to self.{n.func.attr} by keyword')
     found: list[tuple[str, int]] = []
     for n in ast.walk(fn):
         recv = None
